@@ -85,3 +85,36 @@ pub mod stat {
         crate::base::check_validity_for_reuse_statistic(sc, iv, psc, piv).is_ok()
     }
 }
+
+/// The standard slot chain (same composition as `api::slot_chain::GLOBAL_SLOT_CHAIN`)
+/// with additional caller-supplied slots.
+pub mod chain {
+    use crate::base::{RuleCheckSlot, SlotChain, StatSlot};
+    use crate::{circuitbreaker, flow, hotspot, isolation, stat, system};
+    use std::sync::Arc;
+
+    pub fn standard_plus(
+        checks: Vec<Arc<dyn RuleCheckSlot>>,
+        stats: Vec<Arc<dyn StatSlot>>,
+    ) -> SlotChain {
+        let mut sc = SlotChain::new();
+        sc.add_stat_prepare_slot(stat::default_resource_node_prepare_slot());
+        sc.add_rule_check_slot(system::default_slot());
+        sc.add_rule_check_slot(flow::default_slot());
+        sc.add_rule_check_slot(isolation::default_slot());
+        sc.add_rule_check_slot(hotspot::default_slot());
+        sc.add_rule_check_slot(circuitbreaker::default_slot());
+        sc.add_stat_slot(stat::default_resource_stat_slot());
+        sc.add_stat_slot(crate::log::default_stat_slot());
+        sc.add_stat_slot(flow::default_stand_alone_stat_slot());
+        sc.add_stat_slot(hotspot::default_stand_alone_stat_slot());
+        sc.add_stat_slot(circuitbreaker::default_metric_stat_slot());
+        for c in checks {
+            sc.add_rule_check_slot(c);
+        }
+        for s in stats {
+            sc.add_stat_slot(s);
+        }
+        sc
+    }
+}
